@@ -196,6 +196,7 @@ var verifMsgRules = []struct {
 	{regexp.MustCompile(`^path (\S*) is taken by another resource$`), "path-taken:$1"},
 	{regexp.MustCompile(`^VirtualServerRoute (\S+) doesn't exist or invalid$`), "vsr-missing:$1"},
 	{regexp.MustCompile(`(?s)^VirtualServerRoute (\S+) is invalid: .*$`), "vsr-invalid:$1"},
+	{regexp.MustCompile(`^VirtualServerRoute (\S+) is referenced more than once$`), "vsr-duplicate:$1"},
 	{regexp.MustCompile(`^Listeners defined, but no GlobalConfiguration is deployed$`), "listeners-no-gc"},
 	{regexp.MustCompile("^Listener (\\S*) can't be use in `listener.http` context.*$"), "listener-http-ssl:$1"},
 	{regexp.MustCompile("^Listener (\\S*) can't be use in `listener.https` context.*$"), "listener-https-nossl:$1"},
@@ -249,13 +250,25 @@ func verifBoolMap(m map[string]bool) string {
 	return strings.Join(out, "+")
 }
 
+// verifUID prints the digits of an object's UID as a number (the generator's UIDs are u001, u002, ...): which OBJECT an entry was
+// built from, so that an entry built from a deleted-and-re-created namesake is told apart from the current one.
+func verifUID(m *metav1.ObjectMeta) string {
+	n := 0
+	for _, ch := range string(m.UID) {
+		if ch >= '0' && ch <= '9' {
+			n = n*10 + int(ch-'0')
+		}
+	}
+	return strconv.Itoa(n)
+}
+
 // verifSnap is the canonical rendering of a Resource (everything the generator reads from it).
 func verifSnap(r Resource) string {
 	switch c := r.(type) {
 	case *IngressConfiguration:
 		var mins []string
 		for _, m := range c.Minions {
-			mins = append(mins, fmt.Sprintf("%s@g%d(%s)", verifMetaStr(&m.Ingress.ObjectMeta), m.Ingress.Generation, verifBoolMap(m.ValidPaths)))
+			mins = append(mins, fmt.Sprintf("%s@g%du%s(%s)", verifMetaStr(&m.Ingress.ObjectMeta), m.Ingress.Generation, verifUID(&m.Ingress.ObjectMeta), verifBoolMap(m.ValidPaths)))
 		}
 		var cw []string
 		keys := make([]string, 0, len(c.ChildWarnings))
@@ -272,17 +285,17 @@ func verifSnap(r Resource) string {
 		if c.IsMaster {
 			master = 1
 		}
-		return fmt.Sprintf("%s{g%d!a%s!M%d!vh:%s!min:%s!w:%s!cw:%s}", c.GetKeyWithKind(), c.Ingress.Generation, c.Ingress.Annotations["verif.example/x"], master,
+		return fmt.Sprintf("%s{g%du%s!a%s!M%d!vh:%s!min:%s!w:%s!cw:%s}", c.GetKeyWithKind(), c.Ingress.Generation, verifUID(&c.Ingress.ObjectMeta), c.Ingress.Annotations["verif.example/x"], master,
 			verifBoolMap(c.ValidHosts), strings.Join(mins, "+"), verifCodes(c.Warnings), strings.Join(cw, "+"))
 	case *VirtualServerConfiguration:
 		var vsrs []string
 		for _, v := range c.VirtualServerRoutes {
-			vsrs = append(vsrs, fmt.Sprintf("%s@g%d", verifMetaStr(&v.ObjectMeta), v.Generation))
+			vsrs = append(vsrs, fmt.Sprintf("%s@g%du%s", verifMetaStr(&v.ObjectMeta), v.Generation, verifUID(&v.ObjectMeta)))
 		}
-		return fmt.Sprintf("%s{g%d!h:%s!vsr:%s!p:%d/%d!ip:%s,%s,%s,%s!w:%s}", c.GetKeyWithKind(), c.VirtualServer.Generation, c.VirtualServer.Spec.Host, strings.Join(vsrs, "+"),
+		return fmt.Sprintf("%s{g%du%s!h:%s!vsr:%s!p:%d/%d!ip:%s,%s,%s,%s!w:%s}", c.GetKeyWithKind(), c.VirtualServer.Generation, verifUID(&c.VirtualServer.ObjectMeta), c.VirtualServer.Spec.Host, strings.Join(vsrs, "+"),
 			c.HTTPPort, c.HTTPSPort, c.HTTPIPv4, c.HTTPIPv6, c.HTTPSIPv4, c.HTTPSIPv6, verifCodes(c.Warnings))
 	case *TransportServerConfiguration:
-		return fmt.Sprintf("%s{g%d!h:%s!l:%s!p:%d!ip:%s,%s!w:%s}", c.GetKeyWithKind(), c.TransportServer.Generation, c.TransportServer.Spec.Host, c.TransportServer.Spec.Listener.Name, c.ListenerPort, c.IPv4, c.IPv6, verifCodes(c.Warnings))
+		return fmt.Sprintf("%s{g%du%s!h:%s!l:%s!p:%d!ip:%s,%s!w:%s}", c.GetKeyWithKind(), c.TransportServer.Generation, verifUID(&c.TransportServer.ObjectMeta), c.TransportServer.Spec.Host, c.TransportServer.Spec.Listener.Name, c.ListenerPort, c.IPv4, c.IPv6, verifCodes(c.Warnings))
 	}
 	return "?"
 }
